@@ -83,13 +83,19 @@ def rederived (ts : List ClassTable) (sites : List Site) (c f : String) : Bool :
 /-- positional `__setstate__` puts back exactly the tuple parts, in order -/
 def tupleRoundTrip (t : ClassTable) : Bool := t.tupleParts == t.setstate
 
-/-- the statement of `result_fields_survive` for one (class, field) -/
-def survives (ts : List ClassTable) (sites : List Site) (cf : String × String) : Bool :=
-  (attrUniverse ts cf.1).contains cf.2 && (!dropped ts cf.1 cf.2 || rederived ts sites cf.1 cf.2)
-
 /-- `f` of class `c` (or of a base) is assigned by the resume path itself (not merely on first use afterwards) -/
 def touched (ts : List ClassTable) (sites : List Site) (c f : String) : Bool :=
   sites.any fun s => s.attr == f && s.kind == "resume" && (lineage ts c).contains s.owner
+
+/-- the statement of `result_fields_survive` for one (class, field): the attribute exists, and
+    * if the `__getstate__` in force drops it, some site of the resume path (or a first-use site) assigns it again
+      (WHAT it is assigned is not judged here — the round-trip tie compares the values);
+    * if the pickle carries it, the resume path does not assign it — unless it is in the explicit list `exempt` of carried
+      attributes that the resume path is known to overwrite (their values too are compared by the round-trip tie). -/
+def survives (ts : List ClassTable) (sites : List Site) (exempt : List (String × String)) (cf : String × String) : Bool :=
+  (attrUniverse ts cf.1).contains cf.2 &&
+    (if dropped ts cf.1 cf.2 then rederived ts sites cf.1 cf.2
+     else (!touched ts sites cf.1 cf.2 || exempt.contains cf))
 
 /-! A state is an association list attribute ↦ value (any value type).  Checkpointing keeps the attributes the
 `__getstate__` in force does not drop; resuming puts the pickled attributes back (`__dict__.update(state)`) and then
